@@ -179,6 +179,11 @@ func (ex *Exec) runJob(l *Loaded, tmpl *State, cfg JobConfig) (res *JobResult) {
 		sort.Strings(res.Funcs)
 		s.Close()
 		if r := recover(); r != nil {
+			if _, ok := r.(jobTimeout); ok && len(res.Violations) > 0 {
+				res.Status = "violation"
+				res.Stopped = fmt.Sprintf("exploration stopped 20 s after the first violation with %d states pending", len(ex.work))
+				return
+			}
 			if _, ok := r.(jobTimeout); ok {
 				res.Status = "undecided"
 				res.Inconclusive = append(res.Inconclusive, fmt.Sprintf("job wall-time bound %d ms reached with %d states pending after %d paths", ex.cfg.WallMs, len(ex.work), res.Paths))
@@ -210,6 +215,7 @@ func (ex *Exec) runJob(l *Loaded, tmpl *State, cfg JobConfig) (res *JobResult) {
 	if ex.cfg.WallMs == 0 {
 		ex.cfg.WallMs = 300000
 	}
+	ex.started = time.Now()
 	ex.deadline = time.Now().Add(time.Duration(ex.cfg.WallMs) * time.Millisecond)
 	for len(ex.work) > 0 {
 		s := ex.work[len(ex.work)-1]
